@@ -38,6 +38,12 @@ def is_pointer_plane(key: str) -> bool:
     return key == HINT_KEY or key == "metadata" or bool(_META_FILE.match(key))
 
 
+def is_announcement_plane(key: str) -> bool:
+    """metadata/collecting/: Table.garbage_collect announces a collection run there before collect() starts and withdraws
+    the announcement when it ends (handshake with Transaction.append_files, C06); outside the collector model."""
+    return key.rstrip("/") == "metadata/collecting" or key.startswith("metadata/collecting/")
+
+
 class NotOSError(Exception):
     """Stands for a storage exception that is not an OSError (e.g. botocore ClientError)."""
 
@@ -463,11 +469,11 @@ def run_collect(table: Any, grace_ms: int, now_s: float, plan: Optional[List[Dic
     # projection: the calls made inside metadata_manager.refresh(), and the collector's own check of the version hint,
     # concern the pointer plane, which is not part of the collector model
     a, b = st.mark if st.mark is not None else (len(st.trace), len(st.trace))
-    rest = st.trace[:a] + st.trace[b:]
+    rest = [c for c in st.trace[:a] + st.trace[b:] if not is_announcement_plane(c[1])]
     out["pre_trace"] = st.trace[a:b] + [c for c in rest if is_pointer_plane(c[1])]
     out["trace"] = [c for c in rest if not is_pointer_plane(c[1])]
     out["keep_sets"] = keep_sets
-    out["unknown"] = [t for t in st.trace if t[0].startswith("?") and t[0] != "?read_json"]
+    out["unknown"] = [t for t in st.trace if t[0].startswith("?") and t[0] != "?read_json" and not is_announcement_plane(t[1])]
     return out
 
 
